@@ -30,6 +30,10 @@ type Case struct {
 	Seekable bool   `json:"seekable,omitempty"` // the short-reading source also implements io.Seeker
 	Std      string `json:"std,omitempty"`
 	Prefix   int    `json:"prefix,omitempty"`
+	// how the source ends and stutters (compressed and network streams hand over their last bytes together with
+	// io.EOF; some sources answer a read with nothing now and then)
+	DataWithEOF bool `json:"data_with_eof,omitempty"`
+	ZeroEvery   int  `json:"zero_every,omitempty"`
 }
 
 func check(c Case) (kind, what string, nt bool) {
@@ -53,7 +57,7 @@ func check(c Case) (kind, what string, nt bool) {
 	if refName != "" && refName != "png" {
 		nt = true
 	}
-	s := &src.Source{Data: c.Data, FaultAt: -1, Sizes: c.Sizes}
+	s := &src.Source{Data: c.Data, FaultAt: -1, Sizes: c.Sizes, DataWithEOF: c.DataWithEOF, ZeroEvery: c.ZeroEvery}
 	var a ld.Outcome
 	if c.Std != "" {
 		r, _, cleanup := src.Std(c.Std, c.Prefix, c.Data, filepath.Join(ev.Root(), "out", "run", "C19"))
@@ -140,16 +144,22 @@ func TestC19(t *testing.T) {
 		fmt.Println("REPLAY case passed")
 		return
 	}
-	ev.Rule("inputs: rapid-generated valid files of the three formats (C05/C06 grammar), rapid structure-aware mutations and truncations of those and of the repository/built/hostile seeds, polyglots (signature of one format + body of another, RIFF/WEBP header wrapping another file, PNG signature + 4 GiB chunk so the PNG loader drains the source, JPEG SOI+COM followed by another file, concatenations), random bytes, empty input; the auto loader additionally under short-read schedules. Oracle: the first of pngmeta/jpegmeta/webpmeta.Load that succeeds on the complete input (differential, incl. ICC error text), else (nil, error); the stream always replays the input. non-trivial = distinct input on which an earlier candidate consumed > 8 bytes before failing, or which a non-first loader accepts")
+	ev.Rule("inputs: rapid-generated valid files of the three formats (C05/C06 grammar), rapid structure-aware mutations and truncations of those and of the repository/built/hostile seeds, polyglots (signature of one format + body of another, RIFF/WEBP header wrapping another file, PNG signature + 4 GiB chunk so the PNG loader drains the source, JPEG SOI+COM followed by another file, concatenations), random bytes, empty input; the auto loader additionally under short-read schedules, with the last bytes arriving together with EOF, and with reads that return nothing now and then. Oracle: the first of pngmeta/jpegmeta/webpmeta.Load that succeeds on the complete input (differential, incl. ICC error text), else (nil, error); the stream always replays the input. non-trivial = distinct input on which an earlier candidate consumed > 8 bytes before failing, or which a non-first loader accepts")
 	ev.Assume("both sides are prism code on the same bytes; independence of the specific loaders comes from C05/C06")
 	all := append(seeds.All(), seeds.Hostile()...)
 	bad := map[string]bool{}
 	for _, sd := range all {
 		d := sd.Data
-		for si, sizes := range [][]int{nil, {1}, {4097}, nil, nil} {
+		for si, sizes := range [][]int{nil, {1}, {4097}, nil, nil, nil, {4096}, {7}} {
 			c := Case{Desc: sd.Name, Data: d, Sizes: sizes}
-			if si >= 3 {
+			if si == 3 || si == 4 {
 				c.Std, c.Prefix = src.StdKinds[(len(d)+si)%len(src.StdKinds)], []int{27, 4096}[si-3]
+			}
+			if si >= 5 {
+				c.DataWithEOF = true // the last bytes arrive together with io.EOF
+				if si == 7 {
+					c.ZeroEvery = 3
+				}
 			}
 			ev.Eval(1)
 			k, w, nt := check(c)
@@ -222,8 +232,14 @@ func TestC19(t *testing.T) {
 			c.Desc = "random bytes"
 		}
 		if rapid.Bool().Draw(rt, "short") {
-			c.Sizes = rapid.SliceOfN(rapid.IntRange(1, 5000), 1, 4).Draw(rt, "sizes")
+			if rapid.IntRange(0, 3).Draw(rt, "shortsizes") > 0 {
+				c.Sizes = rapid.SliceOfN(rapid.IntRange(1, 5000), 1, 4).Draw(rt, "sizes")
+			}
 			c.Seekable = rapid.Bool().Draw(rt, "seekable")
+			c.DataWithEOF = rapid.Bool().Draw(rt, "dataeof")
+			if rapid.IntRange(0, 3).Draw(rt, "zeroreads") == 0 {
+				c.ZeroEvery = rapid.SampledFrom([]int{2, 3, 7}).Draw(rt, "zeroevery")
+			}
 		} else if rapid.Bool().Draw(rt, "stdreader") {
 			c.Std = rapid.SampledFrom(src.StdKinds).Draw(rt, "stdkind")
 			c.Prefix = rapid.SampledFrom([]int{0, 1, 27, 100, 4096}).Draw(rt, "prefix")
